@@ -19,6 +19,15 @@ open Common
 
 /-! ## IDL account sets (`star_frame_idl::account_set`) -/
 
+/-- One `IdlFindSeed`: a constant, an `AccountPath` relative to the account set that holds the seeded
+account (words separated by spaces for nested fields), or an `AccountPath` written `:path` that is
+taken from the root of the instruction. -/
+inductive SeedM where
+  | const
+  | rel (words : List String)
+  | root (words : List String)
+  deriving Repr, DecidableEq, Inhabited
+
 structure Single where
   writable : Bool := false
   signer : Bool := false
@@ -26,6 +35,8 @@ structure Single where
   isInit : Bool := false
   hasSeeds : Bool := false
   address : Option (List Nat) := none
+  /-- the find-seeds (only carried where the Codama lowering is concerned) -/
+  seeds : List SeedM := []
   deriving Repr, DecidableEq, Inhabited
 
 /-- `IdlAccountSetDef` with `Defined` references resolved (by the harness' printer). -/
@@ -328,6 +339,8 @@ structure CAcc where
   writable : Bool
   optional : Bool
   address : Option (List Nat)
+  /-- names of the accounts the PDA default value looks its account seeds up in, in seed order -/
+  seedAccounts : List String := []
   deriving Repr, DecidableEq, Inhabited
 
 inductive LErr where
@@ -341,9 +354,22 @@ def pathName (ps : List String) : String := camel (" ".intercalate ps)
 def nextPath (ps : List String) (name : Option String) (index : Nat) : List String :=
   ps ++ [name.getD (toString index)]
 
+/-- The account a seed is looked up in, given the path of the set that HOLDS the seeded account
+(`seeds_to_pda_value_node`: `paths.pop()` once, then `create_next(account_path)` per relative seed;
+`:`-rooted paths are taken as they are; constants look nothing up). -/
+def resolveSeed (parent : List String) : SeedM → Option String
+  | .const => none
+  | .rel ws => some (pathName (parent ++ [" ".intercalate ws]))
+  | .root ws => some (camel (" ".intercalate ws))
+
+/-- All account seeds of one PDA are resolved against the SAME parent: the seeded account's own path
+without its last component. -/
+def seedAccountsOf (ps : List String) (s : Single) : List String :=
+  if s.address.isSome then [] else s.seeds.filterMap (resolveSeed ps.dropLast)
+
 /-- `single_set_to_account_node`. -/
 def toCAcc (ps : List String) (s : Single) : CAcc :=
-  ⟨pathName ps, s.signer, s.writable, s.optional, s.address⟩
+  ⟨pathName ps, s.signer, s.writable, s.optional, s.address, seedAccountsOf ps s⟩
 
 abbrev LRes := Except LErr (List CAcc × List CAcc)
 
